@@ -118,6 +118,8 @@ macro_rules! combine_impls {
 
                 #[cfg_attr(feature = "tracing", tracing::instrument(level = "trace"))]
                 fn combine(self) -> Source<Self::Output> {
+                    #[cfg(feature = "verif")]
+                    use crate::verif::{ArcSwap, ArcSwapOption, AtomicUsize};
                     #[cfg(feature = "tracing")]
                     let combine_fn_span = Span::current();
                     $(
